@@ -52,6 +52,22 @@ CLAIMED["C04"] = dict(
     design="DESIGN.md section 3, C04",
 )
 
+CLAIMED["C06"] = dict(
+    category="proof",
+    technique="arm algebra: abstract interpretation of typed-HIR function bodies into Boolean membership formulas + exhaustive truth tables per return path (inductive step of structural induction)",
+    text=("Proof of the inductive step for the decision-diagram layer and the allowed/excluded literal-set layer: every return "
+          "path of BddOps::{intersect,union,diff,complement}, Bdd::from_node/from_atom, ProperSubtypeOps::{...} and the four "
+          "SubType literal-set constructors is read from the typed HIR, interpreted (recursive calls replaced by their "
+          "specification) and compared with the set semantics on ALL assignments satisfying the path's pattern constraints; "
+          "per-tag bit formulas and pair dispatch of SemTypeOps are checked over all abstract tag states; DNF conversion's "
+          "push/pop pairing is checked structurally. With structural descent this covers all diagrams and all literal sets, "
+          "not the sampled ones a test reaches. Unknown constructs fail closed."),
+    note=("Trusted: rustc typed HIR; the interpretation table (Node semantics, sub_vec_* taken as set operations on the "
+          "format-free fragment, structural equality implies semantic equality); lib/armalg.py evaluator. Not decided: "
+          "sub_vec_* bodies, value-level membership of atoms (mapping/list atomic types)."),
+    design="DESIGN.md section 3, C06",
+)
+
 NOT_APPLICABLE_REASON = {}
 
 
